@@ -1,7 +1,193 @@
-//! c12 oracle (filled in later)
-use crate::inbound::In;
-use crate::simnet::Violation;
-pub fn step_check(_s: &In) -> Result<(), Violation> { Ok(()) }
-pub fn final_check(_s: &In) -> Result<(), Violation> { Ok(()) }
+//! C12: inbound concurrency limits hold and never wedge the connection.
+use std::time::Duration;
 
-pub fn configs(_tier: crate::check::Tier) -> Vec<crate::inbound::InCfg> { Vec::new() }
+use crate::check::{Check, Tier};
+use crate::inbound::*;
+use crate::inbound_oracles::{handler_records, healthy};
+use crate::refmqtt::{PVal, Pkt, Ver};
+use crate::simnet::{ExploreCfg, Violation};
+use crate::world::*;
+
+fn viol(s: &In, clause: &str, wit: String, msg: String) -> Violation {
+    Violation::new(clause, format!("{} {}", s.cfg.ep.label(), wit), format!("{msg}; {}", s.detail()))
+}
+
+/// histories in which a PUBLISH was delivered in pieces are a class of their own (known finding C12-3)
+fn streamed(s: &In) -> &'static str {
+    if s.sent.iter().any(|x| matches!(x.t, T::PubSplit { .. })) { " with a streamed publish" } else { "" }
+}
+
+fn v5x(s: &In) -> bool {
+    s.conn.ver() == Ver::V5
+}
+
+fn limits(s: &In) -> (usize, usize) {
+    (s.cfg.ep.max_receive as usize, s.cfg.ep.max_receive_size)
+}
+
+/// handlers entered and neither exited nor dropped, with the size of their packets
+fn executing(s: &In) -> Vec<(usize, usize)> {
+    let hs = handler_records(s);
+    // MQTT 5 Receive Maximum only counts QoS 1/2 publishes
+    let v5 = s.conn.ver() == Ver::V5;
+    hs.iter()
+        .filter(|h| h.exit.is_none() && !h.dropped && (!v5 || h.qos > 0))
+        .map(|h| {
+            // packet size = fixed header excluded (library's notion): topic(2+1) + [pid 2] + [v5 props 1] + payload
+            let pkt = 3 + if h.qos > 0 { 2 } else { 0 } + if s.conn.ver() == Ver::V5 { 1 } else { 0 } + h.size;
+            (h.k, pkt)
+        })
+        .collect()
+}
+
+pub fn step_check(s: &In) -> Result<(), Violation> {
+    let (max_n, max_sz) = limits(s);
+    let ex = executing(s);
+    // the count limit applies to the v3 server middleware and to the v5 endpoints' receive maximum
+    if max_n != 0 && ex.len() > max_n {
+        return Err(viol(
+            s,
+            "too-many-handlers",
+            if streamed(s).is_empty() { format!("max_receive={max_n}") } else { format!("max_receive{}", streamed(s)) },
+            format!("{} publish handlers executing at once with max_receive {max_n}", ex.len()),
+        ));
+    }
+    if max_sz != 0 && s.cfg.ep.role == Role::Server {
+        let hs = handler_records(s);
+        let all: Vec<usize> = hs
+            .iter()
+            .filter(|h| h.exit.is_none() && !h.dropped)
+            .map(|h| 3 + if h.qos > 0 { 2 } else { 0 } + if v5x(s) { 1 } else { 0 } + h.size)
+            .collect();
+        let total: usize = all.iter().sum();
+        let largest = all.iter().copied().max().unwrap_or(0);
+        if total > max_sz + largest {
+            return Err(viol(
+                s,
+                "too-many-bytes",
+                if streamed(s).is_empty() { format!("max_receive_size={max_sz}") } else { format!("max_receive_size{}", streamed(s)) },
+                format!("executing handlers hold {total} packet bytes with max_receive_size {max_sz} (largest packet {largest})"),
+            ));
+        }
+    }
+    Ok(())
+}
+
+pub fn final_check(s: &In) -> Result<(), Violation> {
+    step_check(s)?;
+    let v5 = s.conn.ver() == Ver::V5;
+    let (max_n, _) = limits(s);
+    let stops = s.conn.log.stops();
+    let quota = stops.iter().any(|x| x.contains("3_3_4_7") || x.contains("3_3_4_9") || x.contains("ReceiveMaximum"));
+    let disc93 = s.conn.out.iter().any(|(_, p)| matches!(p, Pkt::Disconnect { code: Some(0x93), .. }));
+    if v5 && max_n != 0 {
+        // peer view: unacknowledged = QoS>0 publishes sent minus final acks seen before each send
+        let mut within = true;
+        for snt in &s.sent {
+            let Some(Pkt::Publish { qos, .. }) = &snt.pkt else { continue };
+            if *qos == 0 {
+                continue;
+            }
+            let sent_before = s.sent.iter().filter(|x| x.step < snt.step && matches!(&x.pkt, Some(Pkt::Publish { qos, .. }) if *qos > 0)).count();
+            let acked_before = s
+                .conn
+                .out
+                .iter()
+                .filter(|(st, p)| *st < snt.step && matches!(p, Pkt::Ack { typ: 4 | 7, .. } | Pkt::Ack { typ: 5, code: Some(0x80..), .. }))
+                .count();
+            if sent_before - acked_before.min(sent_before) >= max_n {
+                within = false;
+            }
+        }
+        if within && (quota || disc93) {
+            return Err(viol(
+                s,
+                "refused-within-quota",
+                format!("receive_max={max_n}"),
+                format!("peer never had more than {max_n} unacknowledged QoS>0 publishes but was refused (stops {stops:?}, DISCONNECT 0x93 {disc93})"),
+            ));
+        }
+        // certainly over: more handlers gated than the quota allows can never happen (checked above); if the
+        // endpoint refused, it must say 0x93
+        if quota && s.cfg.ep.role == Role::Server && !disc93 && !s.conn.peer_closed {
+            return Err(viol(s, "quota-wrong-code", format!("receive_max={max_n}"), format!("receive maximum exceeded but no DISCONNECT 0x93 was written (stops {stops:?})")));
+        }
+    }
+    // liveness: all gates were opened by the drain; on a healthy connection every complete publish was handled
+    if healthy(s) {
+        let hs = handler_records(s);
+        for (i, snt) in s.sent.iter().enumerate() {
+            let Some(Pkt::Publish { payload, .. }) = &snt.pkt else { continue };
+            if snt.complete_step.is_none() {
+                continue;
+            }
+            let h = hs.iter().find(|h| h.payload.first() == payload.first() && h.size == payload.len());
+            match h {
+                None => {
+                    return Err(viol(s, "wedged", format!("max_receive={max_n}"), format!("PUBLISH #{i} was never handled although every handler completed")));
+                }
+                Some(h) => {
+                    if h.payload != *payload && h.payload_err.is_none() && h.exit.is_some() {
+                        return Err(viol(s, "wedged", "payload".into(), format!("PUBLISH #{i}: handler read {} of {} payload bytes", h.payload.len(), payload.len())));
+                    }
+                    if h.exit.is_none() {
+                        return Err(viol(s, "wedged", "handler stuck".into(), format!("handler of PUBLISH #{i} never completed (streamed payload not delivered?)")));
+                    }
+                }
+            }
+        }
+    }
+    Ok(())
+}
+
+pub fn configs(tier: Tier) -> Vec<InCfg> {
+    let mut v = Vec::new();
+    let q = |qos: u8, len: u16| T::Pub { qos, id: 0, len, topic: 0, alias: 0 };
+    for (ver, role) in [(Ver::V3, Role::Server), (Ver::V5, Role::Server), (Ver::V5, Role::Client)] {
+        let ns: &[u16] = if tier == Tier::Quick { &[1, 2] } else { &[0, 1, 2, 3] };
+        for &n in ns {
+            let sizes: &[usize] = if role == Role::Server { &[0, 30, 65535] } else { &[65535] };
+            for &sz in sizes {
+                if tier == Tier::Quick && sz == 0 && n == 2 {
+                    continue;
+                }
+                let mut ep = EpCfg::new(ver, role);
+                ep.max_receive = n;
+                ep.max_receive_size = sz;
+                ep.handler_auto = false;
+                ep.min_chunk_size = 4;
+                if ver == Ver::V5 && role == Role::Server {
+                    ep.hs_receive_max = if n == 0 { None } else { Some(n) };
+                }
+                let alphabet = vec![q(1, 5), q(1, 14), q(0, 5), T::PubSplit { qos: 1, id: 0, len: 12 }, q(2, 26)];
+                v.push(InCfg {
+                    ep,
+                    connect_props: vec![],
+                    alphabet,
+                    prologue: vec![],
+                    max_len: if tier == Tier::Quick { 3 } else { 4 },
+                    outcomes: vec![GateOutcome::Ok],
+                    poutcomes: vec![GateOutcome::Ok],
+                    cork: false,
+                    judge: J_C12,
+                    app_sends: vec![],
+                    skip_connect: false,
+                    known: vec![],
+                });
+            }
+        }
+    }
+    let _ = PVal::Byte(0);
+    v
+}
+
+pub fn run(tier: Tier) -> i32 {
+    let mut ck = Check::new("C12", tier, Duration::from_secs(if tier == Tier::Quick { 50 } else { 1800 }));
+    let ecfg = ExploreCfg { max_dev: 1, max_execs: if tier == Tier::Quick { 600_000 } else { 10_000_000 }, ..Default::default() };
+    for (i, c) in configs(tier).iter().enumerate() {
+        ck.explore::<In>("inbound", i, c, &ecfg);
+    }
+    ck.rule = "v3 server (default in-flight middleware), v5 server (Receive Maximum + size middleware), v5 client (receive maximum): max_receive in {1,2} (quick) / {0,1,2,3} (thorough) x max_receive_size in {0, 30 bytes, 64 KiB}; bursts of up to 3 (quick) / 4 (thorough) publishes over {q1 5 B, q1 14 B, q0 5 B, q1 12 B split in two writes, q2 26 B} against gated handlers, deliveries and completions in every order with <= 1 injection while runnable; invariants after every step: executing handlers <= max_receive, their packet bytes <= max_receive_size + largest packet; v5: a peer within Receive Maximum is never answered 0x93; drain: all gates opened => every complete publish handled with its full payload".into();
+    ck.assumptions = vec!["FIFO task order of ntex-rt; nondeterminism = timing of environment events (DESIGN 2.4)".into()];
+    ck.finish()
+}
